@@ -263,15 +263,15 @@ def register(_reg, _mt, STD):  # noqa: ANN001
     _extend('C05', [round5.rule_parallel_converters_unfiltered, round5.rule_runtime_type_of_same_value, round5.rule_value_or_list_writer,
                     round5.rule_runtime_writer_only_for_any, forwarding.rule_c19_r2])
     _extend('C06', [round5.rule_runtime_type_of_same_value, dispatch.rule_c01_r1])
-    _extend('C07', [forwarding.rule_io_passes_documents_through, classes_rules.rule_c15_r2, errors_rules.rule_inner_tree_passed_through])
-    _extend('C08', [round5.rule_descriptions_join_strings, errors_rules.rule_c07_r5, errors_rules.rule_children_all_rendered])
+    _extend('C07', [forwarding.rule_io_passes_documents_through, classes_rules.rule_c15_r2, errors_rules.rule_inner_tree_passed_through, errors_rules.rule_children_not_overwritten])
+    _extend('C08', [round5.rule_descriptions_join_strings, errors_rules.rule_c07_r5, errors_rules.rule_children_all_rendered, errors_rules.rule_children_not_overwritten])
     _extend('C10', [round5.rule_handler_sets_are_tuples, round5.rule_annotation_identity, round5.rule_keycache_forwards_everything])
     _extend('C11', [round5.rule_runtime_writer_only_for_any, agreement.rule_c06_r1])
     _extend('C12', [round5.rule_classifier_domains, forwarding.rule_c19_r2, errors_rules.rule_inner_tree_passed_through])
     _extend('C13', [round5.rule_annotation_identity, round5.rule_predicates_not_memoised])
     _extend('C14', [round5.rule_record_before_hook, _pane_pairs, agreement.rule_c06_r1, classes_rules.rule_c15_r3])
     _extend('C15', [round5.rule_parallel_converters_unfiltered, round5.rule_string_alias_is_one_name, rename.rule_c20_r3, rename.rule_c20_r4, round5.rule_layout_dispatch, round5.rule_style_guard_agrees])
-    _extend('C16', [round5.rule_one_field_list])
+    _extend('C16', [round5.rule_one_field_list, round5.rule_explicit_hash_before_eq])
     _extend('C17', [round5.rule_annotation_scopes, round5.rule_parameter_order, forwarding.rule_spec_substitution_keeps_settings, round5.rule_declarations_removed, round5.rule_layout_dispatch])
     _extend('C18', [round5.rule_handler_sets_are_tuples, round5.rule_keycache_forwards_everything, classes_rules.rule_c17_r1, round5.rule_field_settings_copied, round5.rule_any_keeps_handlers])
     _extend('C19', [round5.rule_io_siblings_agree])
@@ -282,7 +282,7 @@ def register(_reg, _mt, STD):  # noqa: ANN001
     _extend('C07', [unions.rule_c11_r1])
     _extend('C08', [errors_rules.rule_c07_r1])
     _extend('C10', [round5.rule_annotation_scopes])
-    _extend('C11', [mutation.rule_c09_r2, memo.rule_c10_r3])
+    _extend('C11', [mutation.rule_c09_r2, memo.rule_c10_r3, round5.rule_union_writer_selection])
     _extend('C13', [forwarding.rule_c18_r2])
     _extend('C16', [round5.rule_record_before_hook])
     _extend('C19', [agreement.rule_c05_r4])
